@@ -92,7 +92,7 @@ impl<'a> D<'a> {
                 for s in sw { self.w(match s { ir::SwizzleSlot::X => "0", ir::SwizzleSlot::Y => "1", ir::SwizzleSlot::Z => "2", ir::SwizzleSlot::W => "3" }); }
                 self.expr(v);
             }
-            MatrixSwizzle(v, sw) => { self.w("Opq"); self.ann(e); self.w(format!("MatrixSwizzle{}", sw.len())); self.w("1"); self.expr(v); }
+            MatrixSwizzle(v, sw) => { self.w("MSwz"); self.ann(e); self.w(sw.len().to_string()); for s in sw { self.w((s.0 as u32 * 4 + s.1 as u32).to_string()); } self.expr(v); }
             ArraySubscript(a, i) => { self.w("Sub"); self.ann(e); self.expr(a); self.expr(i); }
             StructMember(x, sid, idx) => {
                 self.w("SMem"); self.ann(e); self.w(sid.0.to_string());
